@@ -44,14 +44,24 @@ func (b blockResult) obs() string {
 var pipeLimit int
 
 func execBlock(block string, module string) (r blockResult) {
-	fork := lang.ShellProcess.Fork(lang.F_FUNCTION | lang.F_NEW_MODULE | lang.F_NO_STDIN | lang.F_CREATE_STDOUT | lang.F_CREATE_STDERR)
+	fork := newFork(module)
 	if pipeLimit > 0 {
 		save := streams.DefaultMaxBufferSize
 		streams.DefaultMaxBufferSize = pipeLimit
 		defer func() { streams.DefaultMaxBufferSize = save }()
 	}
+	return runFork(fork, block)
+}
+
+// newFork creates the function scope a block runs in, with its capture streams (production buffer limit)
+func newFork(module string) *lang.Fork {
+	fork := lang.ShellProcess.Fork(lang.F_FUNCTION | lang.F_NEW_MODULE | lang.F_NO_STDIN | lang.F_CREATE_STDOUT | lang.F_CREATE_STDERR)
 	fork.Name.Set("mxsim")
 	fork.FileRef = &ref.File{Source: &ref.Source{Module: module}}
+	return fork
+}
+
+func runFork(fork *lang.Fork, block string) (r blockResult) {
 	exitNum, err := fork.Execute([]rune(block))
 	r.Exit = exitNum
 	if err != nil {
